@@ -31,7 +31,16 @@ from ..sym import Le, Eq, v_abs, v_lt, v_le, v_sub, v_add, v_mul, v_sq, v_sum
 
 P = 'C08'
 I3 = onp.eye(3)
-DESIGNED_NOT_REGISTERED = []
+DESIGNED_NOT_REGISTERED = [
+    ('O2.isotropy_inplane_rotated_state/hyperviscoelastic (and multibranch)',
+     'isotropy with a non-virgin viscous distortion Fv -> Q Fv Q^T: the code inverts Fv with jnp.linalg.inv (relational encoding: fresh A with Fv A = I); '
+     'the cut lemma Ce(Q Fv Q^T) = Q Ce(Fv) Q^T needs uniqueness of the solution of a symbolic 3x3 system and stays unknown (20 s lemma, 300 s monolithic); '
+     'registered with the virgin state (quick) and, for J2Plastic whose inverse is the closed-form TensorMath.inv, with a rotated state (thorough)'),
+    ('O3 for the spectral models',
+     'P F^T symmetric through the custom JVP of the eigen-decomposition: by design left to C10/C12 (DESIGN.md section 5, C08-O3 is for closed-form models)'),
+    ('O1.objectivity_vmap2 for J2Plastic',
+     'under vmap lax.cond becomes a select and the root-finding while loop of the plastic branch is executed unconditionally; not encoded'),
+]
 
 
 def s0(a):
@@ -42,6 +51,7 @@ def s0(a):
 tuf_p = jcore.Primitive('vf_tensor_uf')
 _ORIG = {}          # name -> the real function of /repo (filled by stubs())
 _SYMMETRIC = {}     # name -> outputs symmetric
+_JITTED = {}
 
 
 def _tuf_impl(x, *, name, extra):
@@ -100,7 +110,11 @@ def _tuf_eval(ctx, eqn, iv):
         vals = [jx.ground_num(ctx, sym.toz(v)) for v in x.ravel()]
         if any(v is None for v in vals):
             raise jx.JXError('vf_tensor_uf: ground argument did not reduce')
-        r = onp.asarray(_ORIG[name](jnp.asarray(onp.array([float(v) for v in vals]).reshape(3, 3)), *extra))
+        jk = (name, extra, _Switch.surrogate)
+        if jk not in _JITTED:
+            f0 = _surrogate(name) if _Switch.surrogate else _ORIG[name]
+            _JITTED[jk] = jax.jit(lambda A, f0=f0: f0(A, *extra))
+        r = onp.asarray(_JITTED[jk](jnp.asarray(onp.array([float(v) for v in vals]).reshape(3, 3))))
         return jx.ew(lambda v: sym.rat(v), r)
     keys = tuple(jx.term_key(v) for v in x.ravel())
     key = ('tuf', name, extra) + keys
@@ -112,6 +126,15 @@ def _tuf_eval(ctx, eqn, iv):
     if hit is not None:
         ctx.cache[key] = hit
         return hit
+    Q = (getattr(ctx, 'c08_merge', None) or {}).get('Q')
+    if Q is not None and _SYMMETRIC.get(name, True):
+        # isotropy: if the argument is *proved* equal to Q A Q^T for an earlier application f(A), the assumed
+        # equivariance f(Q A Q^T) = Q f(A) Q^T defines the result
+        cands = [(list(omatmul(omatmul(Q, x1), Q.T).ravel()), omatmul(omatmul(Q, o1), Q.T)) for (n1, e1, x1, o1) in ctx.c08_apps if n1 == name and e1 == extra]
+        hit = _try_merge(ctx, name + ' (= Q A Q^T)', list(x.ravel()), cands)
+        if hit is not None:
+            ctx.cache[key] = hit
+            return hit
     args = [sym.toz(v) for v in x.ravel()]
     out = onp.empty((3, 3), dtype=object)
     for i in range(3):
@@ -140,7 +163,7 @@ def _scalar_uf_hook(name):
             if all(sym.num(x) for x in a):
                 return jx.sym_uf(ctx, name, list(a))
             if name == 'pow' and sym.num(a[1]) and ((float(a[1]).is_integer() and abs(a[1]) <= 8) or a[1] == 0.5):
-                return jx.ew(lambda p, q: p, *default(ctx, eqn.params, [jx.lift(a[0]), jx.lift(a[1])]), 0.0)[()]
+                return default(ctx, eqn.params, [jx.lift(a[0]), jx.lift(a[1])])[()]
             k = (name,) + tuple(jx.term_key(x) for x in a)
             if k in ctx.ufs:
                 return ctx.ufs[k][0]
@@ -176,6 +199,33 @@ def stubs():
         _ORIG.setdefault(n, f)
         _SYMMETRIC[n] = symm
         setattr(mod, n, _stub(n))
+    try:
+        yield
+    finally:
+        for mod, n, f in saved:
+            setattr(mod, n, f)
+
+
+def _surrogate(name):
+    """a well-conditioned polynomial stand-in with the signature of the tensor function (translator validation only)"""
+    k = 1.0 + 0.1 * (sum(map(ord, name)) % 7)
+
+    def f(A, *extra):
+        A = jnp.asarray(A)
+        S = 0.5 * (A + A.T) if _SYMMETRIC.get(name, True) else A
+        return k * S + 0.25 * S @ S + (0.5 * sum(extra) if extra else 0.0) * jnp.eye(3)
+    return f
+
+
+@contextlib.contextmanager
+def surrogates():
+    from optimism import TensorMath
+    import jax.scipy.linalg as jsl
+    targets = [(TensorMath, n, True) for n in ('log_symm', 'pow_symm', 'exp_symm', 'sqrt_symm')] + [(jsl, 'expm', False)]
+    saved = [(mod, n, getattr(mod, n)) for mod, n, _ in targets]
+    for mod, n, symm in targets:
+        _SYMMETRIC[n] = symm
+        setattr(mod, n, _surrogate(n))
     try:
         yield
     finally:
@@ -437,18 +487,23 @@ def _models():
                      lambda rng: [rng.uniform(2.0, 10.0), rng.uniform(0.5, 2.0), rng.uniform(2.0, 5.0)],
                      lambda m: (1.0, v_add(m[0], m[1]))))
 
-    def j2(kin, hard):
+    def j2(kin, hard, rate=False):
         names = ['E', 'nu', 'Y0']
         ex = [3.0, 0.3, 9.0]
         hp = {'linear': (['Hm'], [0.5], {'hardening modulus': 3}),
               'voce': (['Ysat', 'eps0'], [12.0, 0.1], {'saturation strength': 3, 'reference plastic strain': 4}),
               'power law': (['n', 'eps0'], [3.0, 0.1], {'hardening exponent': 3, 'reference plastic strain': 4})}[hard]
         names, ex = names + hp[0], ex + hp[1]
+        nbase = len(names)
+        if rate:
+            names, ex = names + ['S', 'mexp', 'epsDot0'], ex + [2.0, 3.0, 0.5]
 
         def make(m):
             p = {'elastic modulus': m[0], 'poisson ratio': m[1], 'yield strength': m[2], 'hardening model': hard, 'kinematics': kin}
             for k, idx in hp[2].items():
                 p[k] = m[idx]
+            if rate:
+                p.update({'rate sensitivity': 'power law', 'rate sensitivity stress': m[nbase], 'rate sensitivity exponent': m[nbase + 1], 'reference plastic strain rate': m[nbase + 2]})
             return J2Plastic.create_material_model_functions(p)
 
         def adm(m):
@@ -459,26 +514,31 @@ def _models():
                 a += [v_le(m[2], m[3]), v_lt(0.0, m[4])]
             else:
                 a += [v_lt(0.0, m[3]), v_lt(0.0, m[4])]
+            if rate:
+                a += [v_lt(0.0, m[nbase]), v_lt(0.0, m[nbase + 1]), v_lt(0.0, m[nbase + 2])]
             return a
 
         def sample(rng):
             E = rng.uniform(1.0, 10.0)
-            base = [E, rng.uniform(0.05, 0.45), E * rng.uniform(3.0, 5.0)]
+            base = [E, rng.uniform(0.05, 0.45), E * rng.uniform(20.0, 40.0)]   # validation samples stay elastic
             if hard == 'linear':
-                return base + [rng.uniform(0.0, 1.0)]
-            if hard == 'voce':
-                return base + [base[2] * rng.uniform(1.1, 2.0), rng.uniform(0.05, 0.5)]
-            return base + [rng.uniform(2.0, 5.0), rng.uniform(0.05, 0.5)]
+                base = base + [rng.uniform(0.0, 1.0)]
+            elif hard == 'voce':
+                base = base + [base[2] * rng.uniform(1.1, 2.0), rng.uniform(0.05, 0.5)]
+            else:
+                base = base + [rng.uniform(2.0, 5.0), rng.uniform(0.05, 0.5)]
+            return base + ([rng.uniform(0.5, 3.0), rng.uniform(2.0, 5.0), rng.uniform(0.1, 1.0)] if rate else [])
         strain = {'large deformations': J2Plastic.compute_elastic_logarithmic_strain, 'small deformations': J2Plastic.compute_elastic_linear_strain,
                   'seth hill': J2Plastic.compute_elastic_seth_hill_strain}[kin]
         hf = {'linear': Hardening.linear, 'voce': Hardening.voce, 'power law': Hardening.power_law}[hard]
-        return Model('j2plastic[%s,%s]' % (kin, hard), names, ex, adm, make, 'j2', kin != 'small deformations', kin != 'small deformations', False,
+        return Model('j2plastic[%s,%s%s]' % (kin, hard, ',rate' if rate else ''), names, ex, adm, make, 'j2', kin != 'small deformations', kin != 'small deformations', False,
                      [J2Plastic.create_material_model_functions, J2Plastic.make_properties, strain, J2Plastic._energy_density, J2Plastic.compute_state_increment,
                       J2Plastic.compute_flow_direction, J2Plastic.elastic_free_energy, Hardening.create_hardening_model, hf],
-                     sample, lambda m: _nat_E_nu(m, extra=[v_abs(x) for x in m[2:4]]), hardening=hard)
+                     sample, lambda m: _nat_E_nu(m, extra=[v_abs(x) for x in m[2:4]] + ([v_abs(m[nbase])] if rate else [])), hardening=hard + (',rate' if rate else ''))
     for kin in ('large deformations', 'small deformations', 'seth hill'):
         for hard in ('linear', 'voce', 'power law'):
             out.append(j2(kin, hard))
+        out.append(j2(kin, 'linear', rate=True))
     out.append(Model('hyperviscoelastic', ['K', 'G', 'Gneq', 'tau'], [5.0, 1.0, 0.7, 0.4], lambda m: [v_lt(0.0, x) for x in m],
                      lambda m: HyperViscoelastic.create_material_model_functions({'equilibrium bulk modulus': m[0], 'equilibrium shear modulus': m[1],
                                                                                   'non equilibrium shear modulus': m[2], 'relaxation time': m[3]}),
@@ -565,7 +625,7 @@ def energy(m, mat, a):
     if m.kind == 'plain':
         return lambda H: mat.compute_energy_density(H, st, 0.0)
     if m.kind == 'j2':
-        return lambda H: mat.compute_energy_density(H, st, 1.0)
+        return lambda H: mat.compute_energy_density(H, st, a.get('dt', 1.0))
     if m.kind == 'visco':
         return lambda H: mat.compute_energy_density(H, st, a['dt'])
     if m.kind == 'pf':
@@ -575,6 +635,7 @@ def energy(m, mat, a):
 
 class _Switch:
     patch = None      # context-manager factory applied while the jaxpr is traced
+    surrogate = False
 
 
 def _validate(fn, cj, sampler, seed, n, rtol=1e-8):
@@ -584,9 +645,10 @@ def _validate(fn, cj, sampler, seed, n, rtol=1e-8):
     itself ill-conditioned (it amplifies 1-ulp input perturbations) the comparison allows 100x that amplification."""
     rng = onp.random.default_rng(seed)
     worst, slack_used = 0.0, 0
+    jfn = jax.jit(lambda *a: fn(*a))      # one compilation instead of one per eager lax.cond of the eigen-solver (fresh wrapper: no stale jit cache across patches)
     for k in range(n):
         args = [onp.asarray(a, dtype=float) for a in sampler(rng)]
-        call = lambda aa: [onp.asarray(r, dtype=float) for r in jax.tree_util.tree_leaves(fn(*[jnp.asarray(a) for a in aa]))]
+        call = lambda aa: [onp.asarray(r, dtype=float) for r in jax.tree_util.tree_leaves(jfn(*[jnp.asarray(a) for a in aa]))]
         real = call(args)
         spread = [onp.zeros_like(r) for r in real]
         for t in range(3):
@@ -594,6 +656,7 @@ def _validate(fn, cj, sampler, seed, n, rtol=1e-8):
             for sp, r0, r1 in zip(spread, real, call(pert)):
                 onp.maximum(sp, onp.abs(r1 - r0), out=sp)
         ctx = jx.Ctx(ground=True)
+        ctx.hooks['custom_linear_solve'] = _cls_hook      # all-concrete solves are folded by the real primitive
         gargs = [jx.ew(lambda v: sym.rat(v), a) for a in args]
         try:
             outs = jx.eval_jaxpr(ctx, cj.jaxpr, cj.consts, *gargs)
@@ -618,7 +681,7 @@ def _validate(fn, cj, sampler, seed, n, rtol=1e-8):
                 err = abs(g - y)
                 tol = rtol * (1.0 + abs(y))
                 if not err <= tol:
-                    if err <= 100.0 * e:
+                    if err <= 100.0 * e or math.isnan(e):
                         slack_used += 1
                         continue
                     raise jx.JXError('translator validation failed: JX %r vs real %r (real varies by %.1e under 1-ulp input perturbations; inputs %s)'
@@ -627,7 +690,7 @@ def _validate(fn, cj, sampler, seed, n, rtol=1e-8):
     return worst, slack_used
 
 
-def mk_case(h, body, args, sampler, label, cond='uf', patch=stubs, nval=2, merge_rot=None, merge_cap=20):
+def mk_case(h, body, args, sampler, label, cond='uf', patch=stubs, nval=2, merge_rot=None, merge_cap=20, equivariant=False):
     """Case whose jaxpr is traced with `patch` active; validation and replay run the unpatched function.
     merge_rot = name of the rotation input: tensor-UF applications whose arguments are proved equal under |rot|^2 = 1
     share their outputs (each such cut lemma is registered as a query of its own)."""
@@ -651,16 +714,32 @@ def mk_case(h, body, args, sampler, label, cond='uf', patch=stubs, nval=2, merge
                 vals = [(int(prng.integers(1, 40)), 41) for _ in range(va.size)]
             point += [(v_, z3.RealVal('%d/%d' % pq)) for v_, pq in zip(va, vals)]
         ctx.c08_merge = dict(base=[sum(x * x for x in rv.ravel()) == 1], cap=merge_cap, log=[], lemmas=[], point=point)
+        if equivariant:
+            ctx.c08_merge['Q'] = rot_matrix(rv, xp=onp)
     _Switch.patch = patch
     try:
         c = Case(h, fn, args, validate=0, ctx=ctx, label=label)
     finally:
         _Switch.patch = None
-    if nval:
-        worst, slack = _validate(fn, c.cj, sampler, h.seed, nval)
-        h.fact('translator_validation[%s]' % label, True, 'max rel err %.2e on %d ground runs of the (patched) jaxpr vs the unpatched real function%s'
-               % (worst, nval, '; %d outputs compared within 100x the real function\'s own 1-ulp sensitivity (ill-conditioned)' % slack if slack else ''), nontrivial=False)
-    if merge_rot is not None:
+    if nval and h.replay is None:
+        how = 'the unpatched real function'
+        try:
+            worst, slack = _validate(fn, c.cj, sampler, h.seed, nval)
+        except (jx.JXError, ValueError) as e:
+            if patch is not stubs or not ('non-finite' in str(e) or 'translator validation failed' in str(e)):
+                raise
+            # the real tensor functions are non-finite / ill-conditioned on this input class: validate the encoding of
+            # everything else with a polynomial surrogate in place of the tensor functions on BOTH sides
+            _Switch.patch, _Switch.surrogate = surrogates, True
+            try:
+                worst, slack = _validate(fn, c.cj, sampler, h.seed, nval)
+            finally:
+                _Switch.patch, _Switch.surrogate = None, False
+            how = ('the real function with a polynomial surrogate for the spectral tensor functions on both sides (with the real tensor functions: %s)'
+                   % str(e).splitlines()[0][:160])
+        h.fact('translator_validation[%s]' % label, True, 'max rel err %.2e on %d ground runs of the (patched) jaxpr vs %s%s'
+               % (worst, nval, how, '; %d outputs compared within 100x the real function\'s own 1-ulp sensitivity (ill-conditioned)' % slack if slack else ''), nontrivial=False)
+    if merge_rot is not None and h.replay is None:
         for k, (name, x, x1) in enumerate(ctx.c08_merge['lemmas']):
             h.prove('%s.lemma%d[%s arguments equal]' % (label, k, name), list(ctx.c08_merge['base']) + c.side(True),
                     Eq(list(x), list(x1)), inputs=c.inp, concrete=None, cap=4 * merge_cap,
@@ -677,14 +756,15 @@ NOTE_ROT = 'float re-evaluation of a solver model accepts |q|^2 = 1 within 1e-9 
 
 
 # =========================================================================================== O1 / O2 generic driver
-def _sym_case(h, m, what, full, state, batch=False):
+def _sym_case(h, m, what, full, state, batch=False, quat=None):
     """what: 'left' W(QF) = W(F)  |  'right' W(F Q^T) = W(F) with the reference-side transformation of the auxiliaries"""
+    quat = full if quat is None else quat
     with quiet():
         mat0 = m.make(list(m.example))
         st0 = onp.asarray(mat0.compute_initial_state(), dtype=float)
     aux = aux_spec(m, mat0, state)
     names = [('H' if full else 'h'), 'rot', 'mod'] + [n for n, _ in aux]
-    ex = dict([(names[0], 0.1 * onp.ones((3, 3) if full else (2, 2))), ('rot', onp.array([1.0, 0.0, 0.0, 0.0]) if full else onp.array([1.0, 0.0])),
+    ex = dict([(names[0], 0.1 * onp.ones((3, 3) if full else (2, 2))), ('rot', onp.array([1.0, 0.0, 0.0, 0.0]) if quat else onp.array([1.0, 0.0])),
                ('mod', onp.array(m.example))] + aux)
     elastic_out = (what == 'right' and m.kind == 'j2')
 
@@ -700,6 +780,12 @@ def _sym_case(h, m, what, full, state, batch=False):
             H2 = (H + jnp.eye(3)) @ Q.T - jnp.eye(3)
             if 'gphase' in a:
                 a2['gphase'] = Q @ a['gphase']
+            if 'state' in a:
+                # the internal variables are reference-configuration tensors: Fp, Fv, eps_p -> Q (.) Q^T
+                st = a['state']
+                off = 1 if m.kind == 'j2' else 0
+                blocks = [(Q @ st[off + 9 * b: off + 9 * (b + 1)].reshape(3, 3) @ Q.T).ravel() for b in range((st.shape[0] - off) // 9)]
+                a2['state'] = jnp.hstack([st[:off]] + blocks)
         if batch:
             if a2 is not a and 'gphase' in a:
                 Ws = jax.vmap(lambda Hb, gb: energy(m, mat, dict(a, gphase=gb))(Hb))(jnp.stack([H, H2]), jnp.stack([a['gphase'], a2['gphase']]))
@@ -708,20 +794,20 @@ def _sym_case(h, m, what, full, state, batch=False):
             return Ws[0], Ws[1]
         W1, W2 = energy(m, mat, a)(H), energy(m, mat, a2)(H2)
         if elastic_out:
-            st = mat.compute_initial_state()
-            return W1, W2, mat.compute_state_new(H, st, 1.0)[0] - st[0], mat.compute_state_new(H2, st, 1.0)[0] - st[0]
+            st, st2 = (a['state'], a2['state']) if 'state' in a else (mat.compute_initial_state(),) * 2
+            return W1, W2, mat.compute_state_new(H, st, 1.0)[0] - st[0], mat.compute_state_new(H2, st2, 1.0)[0] - st2[0]
         return W1, W2
 
     def sampler(rng):
         t = rng.uniform(-3.0, 3.0)
-        if full:
+        if quat:
             q = rng.normal(size=4)
             r = q / onp.linalg.norm(q)
         else:
             r = onp.array([onp.cos(t), onp.sin(t)])
         return [0.1 * rng.normal(size=(3, 3) if full else (2, 2)), r, m.sample(rng)] + aux_sample(m, [n for n, _ in aux], st0, rng)
-    label = '%s:%s:%s%s' % (m.key, what, 'SO3' if full else 'inplane', ':vmap2' if batch else '')
-    c = mk_case(h, body, ex, sampler, label, cond='elastic' if elastic_out else 'uf', merge_rot='rot' if what == 'left' else None)
+    label = '%s:%s:%s%s' % (m.key, what, 'SO3' if quat else ('3x3_inplane' if full else 'inplane'), ':vmap2' if batch else '')
+    c = mk_case(h, body, ex, sampler, label, cond='elastic' if elastic_out else 'uf', merge_rot='rot', equivariant=(what == 'right'))
 
     def spec(i, o):
         asm = [rot_ok(i['rot']), v_lt(0.0, det3(F_of(i)))] + m.admissible(i['mod']) + aux_assumes(m, i)
@@ -750,6 +836,75 @@ def _equivariance(c):
     return ax
 
 
+_ROT2 = [((3, 5), (4, 5)), ((-5, 13), (12, 13)), ((8, 17), (-15, 17))]
+_ROT4 = [((1, 5), (2, 5), (2, 5), (4, 5)), ((2, 9), (-4, 9), (5, 9), (6, 9)), ((1, 2), (1, 2), (-1, 2), (1, 2))]
+
+
+def _pin(x, num_, den):
+    if sym.num(x):
+        return abs(float(x) - num_ / den) <= 1e-12
+    return x == z3.RealVal('%d/%d' % (num_, den))
+
+
+def _pins(i, m, k):
+    """pin every input to the k-th of a few fixed points in generic position (small non-symmetric H, rotation with
+    all-non-zero rational parameters, moduli near the example values, perturbed internal state)"""
+    rng = onp.random.default_rng(1000 + k)
+    cs = []
+    small = lambda n, lo, hi: [(int(sgn) * int(v), 64) for sgn, v in zip(rng.choice([-1, 1], size=n), rng.integers(lo, hi, size=n))]
+    for key in ('h', 'H'):
+        if key in i:
+            xs = i[key].ravel()
+            cs += [_pin(x, *q) for x, q in zip(xs, small(xs.size, 2, 12))]
+    if 'rot' in i:
+        tab = _ROT2 if len(i['rot']) == 2 else _ROT4
+        cs += [_pin(x, *q) for x, q in zip(i['rot'], tab[k % len(tab)])]
+    if 'mod' in i:
+        cs += [_pin(x, int(round(e * 64 * (1.0 + 0.2 * rng.uniform(-1, 1)))), 64) for x, e in zip(i['mod'], m.example)]
+    if 'state' in i:
+        st = i['state'].ravel()
+        if m.kind == 'j2':
+            virgin = [0.0] + (list(I3.ravel()) if 'large' in m.key else [0.0] * 9)
+        else:
+            virgin = list(I3.ravel()) * (len(st) // 9)
+        pert = small(st.size, 2, 8)
+        for n_, (x, v, q) in enumerate(zip(st, virgin, pert)):
+            num_ = int(v * 64) + (abs(q[0]) if (m.kind == 'j2' and n_ == 0) else q[0])
+            cs.append(_pin(x, num_, 64))
+    if 'dt' in i:
+        cs.append(_pin(s0(i['dt']), 20 + 5 * k, 64))
+    if 'phase' in i:
+        cs.append(_pin(s0(i['phase']), 20 + 7 * k, 64))
+    if 'gphase' in i:
+        cs += [_pin(x, *q) for x, q in zip(i['gphase'], small(3, 10, 40))]
+    return cs
+
+
+def _prove(c, m, name, spec, **kw):
+    """c.prove; when a counterexample does not reproduce on the real code (typically: the model sits on a degenerate
+    point where only the *uninterpreted* function values differ), ask the solver whether the negated goal is also
+    satisfiable at up to three fixed inputs in generic position and replay those; a reproduced witness there is a
+    violation of the same goal (the first, unreproduced, record stays as it is).  The proof direction (unsat over the
+    whole box) never uses these points."""
+    recs = c.prove(name, spec, **kw)
+    if any(r is not None and r.get('status') == 'unreproduced' for r in (recs or [])):
+        for k in range(3):
+            def spec2(i, o, k=k):
+                asm, atoms = spec(i, o)
+                return list(asm) + _pins(i, m, k), atoms
+            kw2 = dict(kw)
+            kw2['order'] = ('nlsat', 'core')
+            r2 = c.prove('%s.generic_witness%d' % (name, k), spec2, **kw2)
+            recs += r2
+            if any(r is not None and r.get('status') == 'violated' for r in r2):
+                break
+    return recs
+
+
+def _skip(h, key):
+    return h.replay is not None and ('/%s' % key) not in h.replay.get('query', '')
+
+
 def _common_notes(h, m, with_tuf=True):
     h.encoded(*m.enc)
     h.assume_note(NOTE_REALS, NOTE_UF, NOTE_ROT)
@@ -760,15 +915,17 @@ def _common_notes(h, m, with_tuf=True):
     h.outside('rounding error of the float evaluation; XLA compilation of the jaxpr')
 
 
-def _run_symmetry(h, keys, what, full, state, cap, batch=False, order=('core', 'nlsat')):
+def _run_symmetry(h, keys, what, full, state, cap, batch=False, order=('core', 'nlsat'), quat=None):
     for key in keys:
+        if _skip(h, key):
+            continue
         m = model(key)
         _common_notes(h, m)
-        c, spec = _sym_case(h, m, what, full, state, batch=batch)
+        c, spec = _sym_case(h, m, what, full, state, batch=batch, quat=quat)
         extra = list(getattr(c.ctx, 'c08_elastic', []))
         if what == 'right':
             extra += _equivariance(c)
-        c.prove('%s%s' % (m.key, '.vmap2' if batch else ''), spec, cap=cap, order=order, extra_assumes=extra)
+        _prove(c, m, '%s%s' % (m.key, '.vmap2' if batch else ''), spec, cap=cap, order=order, extra_assumes=extra)
 
 
 FINITE_PLAIN = ['linear_elastic[green lagrange]', 'linear_elastic[logarithmic]', 'neohookean[adagio]', 'neohookean[coupled]', 'gent']
@@ -779,7 +936,7 @@ BOUNDS_INPLANE = ('H = 2x2 block (4 free reals) embedded in 3x3 as the library d
 BOUNDS_SO3 = 'H = free 3x3 (9 reals), det(H+I) > 0; Q = rotation of a unit quaternion (all of SO(3)); moduli, dt, state as in the quick tier'
 
 
-@obligation(P, 'O1.objectivity_inplane', cap=300)
+@obligation(P, 'O1.objectivity_inplane', cap=500)
 def o1_inplane(h):
     """W(Q(H+I) - I) = W(H) for every in-plane rotation, every plane-strain H with det F > 0, symbolic moduli and state"""
     h.bounds(BOUNDS_INPLANE)
@@ -787,8 +944,252 @@ def o1_inplane(h):
     _run_symmetry(h, FINITE_PLAIN + FINITE_STATE, 'left', False, 'symbolic', cap=120)
 
 
-@obligation(P, 'O1.objectivity_inplane_multibranch', cap=300)
+@obligation(P, 'O1.objectivity_inplane_multibranch', cap=500)
 def o1_inplane_mb(h):
     """same for the 3-branch viscoelastic model (27 state entries free)"""
     h.bounds(BOUNDS_INPLANE)
     _run_symmetry(h, ['multibranch_hyperviscoelastic'], 'left', False, 'symbolic', cap=200)
+
+
+BOUNDS_3X3 = BOUNDS_INPLANE.replace('H = 2x2 block (4 free reals) embedded in 3x3 as the library does for plane strain', 'H = free 3x3 (9 reals)')
+
+
+@obligation(P, 'O1.objectivity_3x3_inplane_rotation', cap=500)
+def o1_3x3(h):
+    """W(Q(H+I) - I) = W(H) for every in-plane rotation and every (fully three-dimensional) H with det F > 0: reaches
+    the terms that vanish identically on plane-strain H (det H, out-of-plane shear)"""
+    h.bounds(BOUNDS_3X3)
+    _run_symmetry(h, FINITE_PLAIN + FINITE_STATE, 'left', True, 'symbolic', cap=120, quat=False)
+
+
+@obligation(P, 'O2.isotropy_3x3_inplane_rotation', cap=500)
+def o2_3x3(h):
+    h.bounds(BOUNDS_3X3.replace('inelastic state: all 9 (27) entries free, eqps >= 0', 'inelastic state: virgin'))
+    h.assume_note(NOTE_EQV, NOTE_ELASTIC)
+    _run_symmetry(h, FINITE_PLAIN + FINITE_STATE + ['multibranch_hyperviscoelastic'], 'right', True, 'virgin', cap=120, quat=False)
+
+
+@obligation(P, 'O1.objectivity_SO3', tiers=('thorough',), cap=1200)
+def o1_so3(h):
+    """W(Q(H+I) - I) = W(H) for every rotation of SO(3) (unit quaternion) and every 3x3 H with det F > 0"""
+    h.bounds(BOUNDS_SO3)
+    _run_symmetry(h, FINITE_PLAIN + FINITE_STATE, 'left', True, 'symbolic', cap=400)
+
+
+@obligation(P, 'O1.objectivity_SO3_multibranch', tiers=('thorough',), cap=900)
+def o1_so3_mb(h):
+    h.bounds(BOUNDS_SO3)
+    _run_symmetry(h, ['multibranch_hyperviscoelastic'], 'left', True, 'symbolic', cap=600)
+
+
+@obligation(P, 'O1.objectivity_vmap2', tiers=('thorough',), cap=600)
+def o1_vmap(h):
+    """the same identity on the jaxpr of jax.vmap(W) over the batch [H, Q(H+I)-I] (evaluation inside a compiled batch,
+    structurally: JX interprets the batched jaxpr; XLA itself is outside the claim)"""
+    h.bounds(BOUNDS_INPLANE, 'batch size 2')
+    h.outside('J2Plastic under vmap: lax.cond becomes select and both branches (incl. the root-finding loop) are executed -- not encoded')
+    _run_symmetry(h, FINITE_PLAIN + ['hyperviscoelastic', 'phasefield_threshold[large deformations]'], 'left', False, 'symbolic', cap=120, batch=True)
+
+
+NOTE_EQV = ('isotropy of the spectral models is proved modulo the equivariance f(Q A Q^T) = Q f(A) Q^T of TensorMath.log_symm / pow_symm (instances for every pair of '
+            'applications are assumed; contract shared with C12)')
+NOTE_ELASTIC = 'J2Plastic in O2: elastic regime assumed (isYielding false at both states); on replay this is checked as compute_state_new leaving eqps unchanged'
+
+
+@obligation(P, 'O2.isotropy_inplane', cap=500)
+def o2_inplane(h):
+    """W((H+I) Q^T - I) = W(H) (grad phase -> Q grad phase) for every in-plane rotation; virgin inelastic state"""
+    h.bounds(BOUNDS_INPLANE.replace('inelastic state: all 9 (27) entries free, eqps >= 0', 'inelastic state: virgin (identity / zero), which is invariant under the rotation'))
+    h.assume_note(NOTE_EQV, NOTE_ELASTIC)
+    h.outside('rotated non-virgin internal state (Fp -> Q Fp Q^T): quick tier uses the virgin state only')
+    _run_symmetry(h, FINITE_PLAIN + FINITE_STATE + ['multibranch_hyperviscoelastic'], 'right', False, 'virgin', cap=120)
+
+
+@obligation(P, 'O2.isotropy_SO3', tiers=('thorough',), cap=1200)
+def o2_so3(h):
+    h.bounds(BOUNDS_SO3 + '; inelastic state virgin')
+    h.assume_note(NOTE_EQV, NOTE_ELASTIC)
+    _run_symmetry(h, FINITE_PLAIN + FINITE_STATE + ['multibranch_hyperviscoelastic'], 'right', True, 'virgin', cap=400)
+
+
+# =========================================================================================== O3 Kirchhoff stress
+CLOSED_FORM = ['linear_elastic[green lagrange]', 'neohookean[adagio]', 'neohookean[coupled]', 'gent']
+NOTE_DET = ('jnp.linalg.det: its custom JVP (pivoted LU, `_cofactor_solve`) is replaced at trace time by the derivative of JAX\'s own closed-form 3x3 primal '
+            '(Jacobi\'s formula), equal for non-singular F; replay uses the real JVP')
+
+
+def _kirchhoff(h, keys, full, cap):
+    for key in keys:
+        if _skip(h, key):
+            continue
+        m = model(key)
+        _common_notes(h, m, with_tuf=False)
+        h.assume_note(NOTE_DET)
+        hn = 'H' if full else 'h'
+
+        def body(Hh, mod, m=m):
+            mat = m.make(mod)
+            W = energy(m, mat, {})
+            H = Hh if full else embed(Hh)
+            Pk = jax.grad(W)(H)
+            return Pk @ (H + jnp.eye(3)).T
+        ex = {hn: 0.1 * onp.ones((3, 3) if full else (2, 2)), 'mod': onp.array(m.example)}
+        c = mk_case(h, body, ex, lambda rng, m=m: [0.1 * rng.normal(size=(3, 3) if full else (2, 2)), m.sample(rng)],
+                    '%s:kirchhoff:%s' % (m.key, '3x3' if full else 'plane'), patch=det_by_closed_form)
+
+        def spec(i, o, m=m):
+            asm = [v_lt(0.0, det3(F_of(i)))] + m.admissible(i['mod'])
+            return asm, Eq([o[0, 1], o[0, 2], o[1, 2]], [o[1, 0], o[2, 0], o[2, 1]], scale=m.scale(i['mod']))
+        _prove(c, m, m.key, spec, cap=cap)
+
+
+@obligation(P, 'O3.kirchhoff_symmetric', cap=300)
+def o3(h):
+    """tau = (dW/dH)(H+I)^T is symmetric for every 3x3 H with det F > 0 (closed-form models; jaxpr of jax.grad(W))"""
+    h.bounds('H: free 3x3 (9 reals) with det(H+I) > 0; moduli: all admissible reals')
+    h.outside('spectral models (stress through the custom JVP of the eigen-decomposition): covered by C10/C12, not here')
+    _kirchhoff(h, CLOSED_FORM, True, cap=120)
+
+
+# =========================================================================================== O4 reference state
+def _pow_zero_axioms(ctx):
+    """ground instances of pow(0, y) = 0 for y > 0 and pow(x, 0) = 1 (true of the real pow)"""
+    ax = []
+    for v, n, a in ctx.ufs.values():
+        if n == 'pow':
+            ax += [z3.Implies(z3.And(a[0] == 0, a[1] > 0), v == 0), z3.Implies(z3.And(a[0] > 0, a[1] == 0), v == 1)]
+    return ax
+
+
+def _rest_case(h, m):
+    with_dt = m.kind == 'visco' or (m.hardening or '').endswith('rate')
+    names = ['mod'] + (['dt'] if with_dt else [])
+    ex = dict([('mod', onp.array(m.example))] + ([('dt', onp.asarray(0.1))] if with_dt else []))
+
+    def body(*arrs):
+        a = dict(zip(names, arrs))
+        mat = m.make(a['mod'])
+        aa = dict(a)
+        if m.kind == 'pf':
+            aa.update(phase=0.0, gphase=jnp.zeros(3))
+        W = energy(m, mat, aa)
+        Z = jnp.zeros((3, 3))
+        return W(Z), jax.grad(W)(Z)
+
+    def sampler(rng):
+        return [m.sample(rng)] + ([rng.uniform(0.05, 0.5)] if with_dt else [])
+
+    def spec(i, o):
+        mod = i['mod']
+        den, numr = m.natural(mod)
+        asm = m.admissible(mod) + aux_assumes(m, i)
+        tol = v_mul(1e-12, numr)
+        sc = m.scale(mod)
+        return asm, [Le(v_mul(v_abs(s0(o[0])), den), tol, scale=sc, name='energy'),
+                     Le([v_mul(v_abs(x), den) for x in o[1].ravel()], tol, scale=sc, name='stress')]
+    return names, ex, body, sampler, spec
+
+
+def _rest(h, keys, cap=60):
+    for key in keys:
+        if _skip(h, key):
+            continue
+        m = model(key)
+        _common_notes(h, m, with_tuf=False)
+        names, ex, body, sampler, spec = _rest_case(h, m)
+        label = '%s:rest' % m.key
+        try:
+            c = mk_case(h, body, ex, sampler, label, cond='uf', patch=None)
+            c.prove(m.key, spec, cap=cap, axioms=True, extra_assumes=_pow_zero_axioms(c.ctx))
+        except ValueError as e:
+            if 'non-finite' not in str(e):
+                raise
+            _nonfinite_direct(h, m, names, ex, body, str(e))
+
+
+def _nonfinite_direct(h, m, names, ex, body, why):
+    """the real-arithmetic encoding met a NaN/inf *constant*: the reference-state value computed by the real code from
+    concrete arguments is itself non-finite.  Establish it directly on the real (jitted) function at the example moduli."""
+    def real(vals):
+        with quiet():
+            out = jax.jit(body)(*[jnp.asarray(onp.asarray(vals[n], dtype=float)) for n in names])
+        return float(out[0]), onp.asarray(out[1])
+    qn = '%s/%s.finite' % (h.ob, m.key)
+    if h.replay is not None and h.replay.get('query') == qn:
+        W0, P0 = real(h.replay['inputs'])
+        bad = not (math.isfinite(W0) and onp.all(onp.isfinite(P0)))
+        h.replay_result = dict(status='violated' if bad else 'unreproduced', replay_info=dict(W0=W0, P0=P0.tolist()))
+        return
+    vals = {n: onp.asarray(ex[n], dtype=float).tolist() for n in names}
+    W0, P0 = real(vals)
+    bad = not (math.isfinite(W0) and onp.all(onp.isfinite(P0)))
+    if not bad:
+        raise ValueError('non-finite constant in the encoding but finite values on the real code: ' + why)
+    if h.replay is None:
+        h.violation('%s.finite' % m.key, vals, 'reference state (H = 0, virgin state) of %s: W = %r, dW/dH = %s on the real code (must be 0); the encoding stopped at a non-finite constant (%s)'
+                    % (m.key, W0, onp.array2string(P0, precision=3).replace('\n', ' '), why[:80]))
+    # the energy alone (no derivative) is still decided by the solver
+    try:
+        def bodyW(*arrs):
+            a = dict(zip(names, arrs))
+            mat = m.make(a['mod'])
+            return energy(m, mat, dict(a))(jnp.zeros((3, 3)))
+        c = mk_case(h, bodyW, ex, lambda rng: [m.sample(rng)] + ([rng.uniform(0.05, 0.5)] if 'dt' in names else []), '%s:rest_energy' % m.key, cond='uf', patch=None)
+
+        def specW(i, o):
+            den, numr = m.natural(i['mod'])
+            return m.admissible(i['mod']) + aux_assumes(m, i), Le(v_mul(v_abs(s0(o)), den), v_mul(1e-12, numr), scale=m.scale(i['mod']), name='energy')
+        c.prove(m.key, specW, cap=60, axioms=True, extra_assumes=_pow_zero_axioms(c.ctx))
+    except ValueError as e:
+        if 'non-finite' not in str(e):
+            raise
+
+
+REST_QUICK = (['linear_elastic[linear]', 'linear_elastic[green lagrange]', 'linear_elastic[logarithmic]', 'neohookean[adagio]', 'neohookean[coupled]', 'gent',
+               'hyperviscoelastic', 'multibranch_hyperviscoelastic', 'phasefield_threshold[large deformations]', 'phasefield_threshold[small deformations]'])
+REST_J2 = ['j2plastic[%s,%s]' % (k, hd) for k in ('large deformations', 'small deformations', 'seth hill') for hd in ('linear', 'voce', 'power law')]
+BOUNDS_REST = ('H = 0, virgin internal state, phase = 0, grad phase = 0 (concrete); moduli: all admissible reals (E>0, -1<nu<1/2, K,G,Jm,Gc,l,tau,Y0 > 0, H >= 0, Ysat >= Y0, '
+               'eps0, n > 0), dt > 0; goal |W|, |dW/dH_ij| <= 1e-12 * (E/(1+nu) + E/(1-2nu) + other stiffness moduli)')
+
+
+@obligation(P, 'O4.reference_state', cap=500)
+def o4(h):
+    """W(0, virgin) = 0 and dW/dH(0, virgin) = 0 for every model and strain-measure option, symbolic moduli; the tensor
+    functions and the eigen-solver are executed by the real primitives on their concrete arguments"""
+    h.bounds(BOUNDS_REST)
+    _rest(h, REST_QUICK)
+
+
+def _o4_j2(kin, tag):
+    @obligation(P, 'O4.reference_state_j2_%s' % tag, cap=400)
+    def ob(h):
+        h.bounds(BOUNDS_REST)
+        h.outside('power-law rate sensitivity (dt-dependent kinetic potential): thorough tier, O4.reference_state_j2_rate')
+        _rest(h, [k for k in REST_J2 if k.startswith('j2plastic[%s,' % kin)])
+    ob.__doc__ = ('reference state of J2Plastic, kinematics option %r x 3 hardening laws (linear, voce, power law); the yield switch at rest is '
+                  'decided by the solver (the plastic branch is an uninterpreted function)' % kin)
+    core_ob = [o for o in __import__('vf.core', fromlist=['REG']).REG[P] if o.name == 'O4.reference_state_j2_%s' % tag][0]
+    core_ob.doc = ob.__doc__
+    return ob
+
+
+for _kin, _tag in (('large deformations', 'large'), ('small deformations', 'small'), ('seth hill', 'seth_hill')):
+    _o4_j2(_kin, _tag)
+
+
+@obligation(P, 'O2.isotropy_inplane_rotated_state', tiers=('thorough',), cap=900)
+def o2_state(h):
+    """W((H+I) Q^T - I, Q S Q^T) = W(H, S): isotropy with a non-virgin internal state S (Fp, Fv, eps_p) transformed as a
+    reference-configuration tensor"""
+    h.bounds(BOUNDS_INPLANE)
+    h.assume_note(NOTE_EQV, NOTE_ELASTIC)
+    h.outside('viscoelastic models with a rotated non-virgin state (see DESIGNED_NOT_REGISTERED)')
+    _run_symmetry(h, ['j2plastic[large deformations,linear]'], 'right', False, 'symbolic', cap=300)
+
+
+@obligation(P, 'O4.reference_state_j2_rate', tiers=('thorough',), cap=600)
+def o4_j2_rate(h):
+    """reference state of J2Plastic with the power-law rate sensitivity (kinetic potential), all dt > 0"""
+    h.bounds(BOUNDS_REST + '; rate sensitivity stress S > 0, exponent m > 0, reference rate > 0')
+    h.assume_note('ground instances of pow(0, y) = 0 for y > 0 and pow(x, 0) = 1 for the pow terms that occur')
+    _rest(h, ['j2plastic[%s,linear,rate]' % k for k in ('large deformations', 'small deformations', 'seth hill')], cap=120)
